@@ -52,6 +52,7 @@ def run(ck: Checker, prog: Program, tier: str):
     ck.guard(_r4_r5, ck, prog, inner)
     ck.guard(_r6_inner, ck, prog, inner)
     ck.guard(_r6_outer, ck, prog, inner, outer)
+    ck.guard(S.check_alias_discipline, ck, prog, "C06.R4", floor=3)
 
 
 def _iteration_loop(inner) -> ast.For:
@@ -505,22 +506,35 @@ def _r6_outer(ck: Checker, prog: Program, inner, outer):
         live = []
         for l in leaves:
             vals = [holds(x, {tof: sp.Symbol(kind)}) for x in literals(l)]
-            if any(v is None for v in vals):
-                raise AnalysisError(f"{OUTER}: decision `{[x for x, v in zip(literals(l), vals) if v is None][0]}` is not about the kind of object")
-            if all(vals):
+            # a decision about something else (arguments, state) does not exclude the path: every such path must do the right thing
+            if all(v is not False for v in vals):
                 live.append(l)
-        if len(live) != 1:
+        if not live:
+            raise AnalysisError(f"{OUTER}: no path for a {kind} object")
+        if len(live) > 8:
             raise AnalysisError(f"{OUTER}: {len(live)} paths for a {kind} object")
-        l = live[0]
+        for l in live:
+            n_checked += _r6_outer_path(ck, prog, pt, hook, inner, outer, l, kind, members, tof, want_inner, len(live))
+    if n_checked < 2:
+        raise AnalysisError(f"{OUTER}: kinds of object checked: {n_checked}")
+
+
+def _r6_outer_path(ck, prog, pt, hook, inner, outer, l, kind, members, tof, want_inner, n_live) -> int:
+    from ..pathtable import PathTable, literals, holds
+    R = lambda n: sp.Symbol(n, real=True)   # noqa: E731
+    H = R("hvsr")
+    F = sp.Function
+    n_checked = 0
+    if True:
         if members is None:
             if l.exit == "raise":
                 ck.ok("C06.R6", OUTER, "other objects are refused", nontrivial=False)
             else:
                 ck.violation("C06.R6", OUTER, "members", "an object that is neither HvsrTraditional nor HvsrAzimuthal is accepted", loc=outer.loc())
-            continue
+            return 0
         if l.exit != "return":
             ck.violation("C06.R6", OUTER, f"{kind}: no result", f"a {kind} object does not reach the rejection", loc=outer.loc())
-            continue
+            return 0
         # the sweep over the members: a loop whose body calls the inner routine, or a comprehension of such calls
         sweep_pos, got_members, got_call, maximum = None, None, None, False
         ret = sp.sympify(l.value) if l.value is not None else None
@@ -529,7 +543,7 @@ def _r6_outer(ck: Checker, prog: Program, inner, outer):
                 loop = ev[3]
                 if any(isinstance(x, (ast.Break, ast.Continue, ast.Return)) for x in ast.walk(loop)):
                     ck.violation("C06.R6", OUTER, "loop over azimuths", "the sweep over the members may stop or skip one", loc=outer.loc(loop))
-                    return
+                    return 0
                 env0, _ = l.snaps[id(loop)]
                 T = pt._T(dict(env0))
                 got_members = T.tr(loop.iter)
@@ -608,8 +622,7 @@ def _r6_outer(ck: Checker, prog: Program, inner, outer):
             ck.ok("C06.R6", OUTER, f"{kind}: peak search with the caller's range precedes the first iteration")
         else:
             ck.violation("C06.R6", OUTER, "peak search on entry", "peaks are not re-evaluated through the object with the caller's search range before the iterations", loc=outer.loc())
-    if n_checked != 2:
-        raise AnalysisError(f"{OUTER}: kinds of object checked: {n_checked}")
+    return n_checked
 
 
 def assigned_names_of(st):
